@@ -26,6 +26,20 @@ func dumpPara(p control.Paragraph) string {
 	return "(" + strings.Join(ord, ",") + "|" + strings.Join(kv, ",") + ")"
 }
 
+// dumpParasMod identifies values that differ by one trailing newline (C08: "values
+// equal up to one trailing newline").
+func dumpParasMod(ps []control.Paragraph) string {
+	var qs []control.Paragraph
+	for _, p := range ps {
+		q := control.Paragraph{Order: p.Order, Values: map[string]string{}}
+		for k, v := range p.Values {
+			q.Values[k] = strings.TrimSuffix(v, "\n")
+		}
+		qs = append(qs, q)
+	}
+	return dumpParas(qs)
+}
+
 func dumpParas(ps []control.Paragraph) string {
 	var xs []string
 	for _, p := range ps {
@@ -177,30 +191,12 @@ var deb822Impl = map[string]core.Adapter{
 		if err != nil {
 			return "ok"
 		}
-		for i := range ps {
-			var buf bytes.Buffer
-			ps[i].WriteTo(&buf)
-			if hasBlankLine(buf.String()) {
-				return fmt.Sprintf("FAIL paragraph %d is written with a blank line: %q", i, buf.String())
-			}
+		res := stableLaw(ps, func(s string) string { return s })
+		if res != "ok" && stableLaw(ps, dropLeadingEmptyLine) == "ok" {
+			// the only thing lost is the empty first line of a value that has further lines
+			return "FAIL[leading-empty-line] " + res
 		}
-		t1 := writeParas(ps)
-		cur, text := ps, t1
-		for cycle := 1; cycle <= 3; cycle++ {
-			next, err := readAllParas(text)
-			if err != nil {
-				return fmt.Sprintf("FAIL cycle %d: own output rejected: %v", cycle, err)
-			}
-			if dumpParas(next) != dumpParas(cur) {
-				return fmt.Sprintf("FAIL cycle %d: paragraphs change: %s -> %s", cycle, dumpParas(cur), dumpParas(next))
-			}
-			t := writeParas(next)
-			if t != text {
-				return fmt.Sprintf("FAIL cycle %d: document changes", cycle)
-			}
-			cur, text = next, t
-		}
-		return "ok"
+		return res
 	},
 	// law: a paragraph of text-line values reads back with the same logical lines
 	"law-d822textrt": func(a []string) string {
@@ -372,7 +368,7 @@ func streamDeb822read(g *core.G) {
 			if len(f) != 3 || f[2] != "1" {
 				return nil // generator produced a document outside WFDoc: skip (counted by the evidence as absent)
 			}
-			return []string{"d822spec " + f[0] + " " + f[1], "law-d822inv " + f[0], "law-d822stable " + f[0]}
+			return []string{"d822spec " + f[0] + " " + f[1], "law-d822inv " + f[0]}
 		}, "d822gen", args...)
 	}
 	for i := 0; i < n*3; i++ {
@@ -483,6 +479,62 @@ func init() {
 		Facts: append(append([]string{}, readFacts...), "fingerprint:control.Paragraph.WriteTo", "fingerprint:control.Encoder.encodeStruct"),
 		Streams: []core.Stream{{Name: "deb822rt", Gen: streamDeb822rt,
 			Domain: "paragraphs with values drawn from line sequences (empty lines, runs of empty lines, indented lines, trailing newline present or absent): WriteTo bytes model vs implementation, read back with the same logical lines, no blank line inside a paragraph; documents accepted by the reader (layout renderings and line soup) cycled write/read three times: paragraphs and bytes must not change"}},
-		Impl: deb822Impl, Readable: deb822Readable, TrustedBase: tb,
+		Impl: deb822Impl, Readable: deb822Readable, TrustedBase: tb, Classify: deb822Classify,
 	})
+}
+
+// dropLeadingEmptyLine removes the empty first line of a value that has further lines.
+func dropLeadingEmptyLine(v string) string {
+	for len(v) > 1 && v[0] == '\n' {
+		v = v[1:]
+	}
+	return v
+}
+
+func normParas(ps []control.Paragraph, norm func(string) string) []control.Paragraph {
+	var qs []control.Paragraph
+	for _, p := range ps {
+		q := control.Paragraph{Order: p.Order, Values: map[string]string{}}
+		for k, v := range p.Values {
+			q.Values[k] = norm(v)
+		}
+		qs = append(qs, q)
+	}
+	return qs
+}
+
+// stableLaw: no blank line inside a written paragraph; read-write-read is the identity
+// (values up to one trailing newline); further cycles change neither paragraphs nor bytes.
+func stableLaw(ps []control.Paragraph, norm func(string) string) string {
+	ps = normParas(ps, norm)
+	for i := range ps {
+		var buf bytes.Buffer
+		ps[i].WriteTo(&buf)
+		if hasBlankLine(buf.String()) {
+			return fmt.Sprintf("FAIL paragraph %d is written with a blank line: %q", i, buf.String())
+		}
+	}
+	cur, text := ps, writeParas(ps)
+	for cycle := 1; cycle <= 3; cycle++ {
+		next, err := readAllParas(text)
+		if err != nil {
+			return fmt.Sprintf("FAIL cycle %d: own output rejected: %v", cycle, err)
+		}
+		if dumpParasMod(next) != dumpParasMod(cur) {
+			return fmt.Sprintf("FAIL cycle %d: paragraphs change: %s -> %s", cycle, dumpParas(cur), dumpParas(next))
+		}
+		t := writeParas(next)
+		if t != text {
+			return fmt.Sprintf("FAIL cycle %d: document changes: %q -> %q", cycle, text, t)
+		}
+		cur, text = next, t
+	}
+	return "ok"
+}
+
+func deb822Classify(c *core.CaseResult) string {
+	if strings.HasPrefix(c.Impl, "FAIL[leading-empty-line]") {
+		return "leading-empty-line"
+	}
+	return ""
 }
